@@ -27,6 +27,9 @@ for d in sorted(os.listdir(root)):
             title = s.split('\n', 1)[0].strip()
             body = s.split('\n', 1)[1].strip() if '\n' in s else ''
             break
+    if len(title) < 12 and body:
+        first = next((l.strip(' -*') for l in body.split('\n') if l.strip(' -*')), '')
+        title = (title + ' — ' + first)[:160]
     files = re.findall(r'(?m)^\+\+\+ b/(\S+)', open(os.path.join(p, 'patch.diff')).read())
     res = json.load(open(os.path.join(p, 'result.json'))) if os.path.exists(os.path.join(p, 'result.json')) else {}
     demo = open(os.path.join(p, 'demo_test.go')).readline().strip()
